@@ -3,6 +3,7 @@ package main
 import (
 	"fmt"
 	"go/types"
+	"strconv"
 	"strings"
 
 	"golang.org/x/tools/go/ssa"
@@ -161,7 +162,7 @@ func treeRules(ctx *Ctx, r *Result) {
 					collect(ret)
 				}
 			}
-			wantT := map[string]bool{"bin:-(" + port + ", " + K + ")": true, "bin:-(" + W + ", " + K + ")": true}
+			wantT := map[string]bool{"bin:-(" + port + ", " + K + ")": true, fmt.Sprint(wp - po): true}
 			wantF := map[string]bool{port: true, W: true}
 			if bad == "" && (!sameSet(searched[1], wantT) || !sameSet(searched[-1], wantF)) {
 				bad = fmt.Sprintf("node.contains searches %v under the wildcard flag and %v without it; expected {port-%s, %s-%s} and {port, %s}", sortedKeys(searched[1]), sortedKeys(searched[-1]), K, W, K, W)
@@ -579,21 +580,28 @@ func printerTable(ctx *Ctx, r *Result, rule string, fn *ssa.Function, K, W strin
 		case 0:
 			bad = "the printer does not test whether the host contains a colon (IPv6 literals lose the brackets the parsers strip)"
 		}
-		base := `bin:+(bin:+(bin:+(` + scheme + `, "://"), ` + wild + `), ` + h + `)`
-		want := ""
+		// the rendering is compared as a flat sequence of concatenated pieces
+		// (adjacent literals merged): how the concatenation is associated or
+		// split over statements does not matter
+		hp := []string{"param:n.suf", "param:suf"}
+		if h != host {
+			hp = []string{`"["`, "param:n.suf", "param:suf", `"]"`}
+		}
+		base := append([]string{scheme, `"://"`, wild}, hp...)
+		var want []string
 		switch {
 		case pa.Val("bin:==("+port+", 0)") == 1:
 			want = base
 		case pa.Val("bin:==("+port+", 0)") == -1 && pa.Val("bin:==("+port+", "+W+")") == 1:
-			want = `bin:+(bin:+(` + base + `, ":"), "*")`
+			want = append(base, `":"`, `"*"`)
 		case pa.Val("bin:==("+port+", 0)") == -1 && pa.Val("bin:==("+port+", "+W+")") == -1:
-			want = `bin:+(bin:+(` + base + `, ":"), call:strconv.Itoa(` + port + `))`
+			want = append(base, `":"`, "call:strconv.Itoa("+port+")")
 		default:
 			bad = "an entry is rendered without distinguishing no port / any port / explicit port on the decoded code " + port
 			continue
 		}
-		if emitted.Key() != want {
-			bad = fmt.Sprintf("rendering of an entry differs from the inverse of the parsers: got %s, expected %s", emitted.Key(), want)
+		if got, exp := strings.Join(mergeLiterals(flattenConcat(emitted)), " + "), strings.Join(mergeLiterals(want), " + "); got != exp {
+			bad = fmt.Sprintf("rendering of an entry differs from the inverse of the parsers: got %s, expected %s", got, exp)
 		}
 		if len(samples) < 3 {
 			samples = append(samples, emitted.Key())
@@ -617,6 +625,35 @@ func printerTable(ctx *Ctx, r *Result, rule string, fn *ssa.Function, K, W strin
 		}
 	}
 	r.check(rec > 0, rule, "node.elems: every child visited with the accumulated host", p.Pos(fn.Pos()), "no recursive visit of the children", rec)
+}
+
+// flattenConcat lists the pieces of a string concatenation, left to right.
+func flattenConcat(t *Term) []string {
+	if t.Op == "bin" && t.Name == "+" && len(t.Args) == 2 {
+		return append(flattenConcat(t.Args[0]), flattenConcat(t.Args[1])...)
+	}
+	return []string{t.Key()}
+}
+
+// mergeLiterals merges adjacent string literals and drops empty ones.
+func mergeLiterals(ps []string) []string {
+	var out []string
+	for _, p := range ps {
+		if s, err := strconv.Unquote(p); err == nil && strings.HasPrefix(p, "\"") {
+			if s == "" {
+				continue
+			}
+			if n := len(out); n > 0 && strings.HasPrefix(out[n-1], "\"") {
+				prev, _ := strconv.Unquote(out[n-1])
+				out[n-1] = strconv.Quote(prev + s)
+				continue
+			}
+			out = append(out, strconv.Quote(s))
+			continue
+		}
+		out = append(out, p)
+	}
+	return out
 }
 
 // parallelSlices implements R1.4 on the SSA of package origins.
@@ -655,7 +692,7 @@ func parallelSlicesMode(ctx *Ctx, r *Result, rule string, lengthOnly bool) {
 	describe := func(v ssa.Value, field string) ctor {
 		switch x := v.(type) {
 		case *ssa.Call:
-			if f := x.Common().StaticCallee(); f != nil && strings.HasPrefix(funcName(f), "origins.insert") && len(x.Common().Args) == 3 {
+			if f := x.Common().StaticCallee(); f != nil && isInsertCtor(funcName(f)) && len(x.Common().Args) == 3 {
 				return ctor{kind: "insert", idx: x.Common().Args[1]}
 			}
 			if b, ok := x.Common().Value.(*ssa.Builtin); ok && b.Name() == "append" {
@@ -733,7 +770,7 @@ func parallelSlicesMode(ctx *Ctx, r *Result, rule string, lengthOnly bool) {
 					continue
 				}
 				name := funcName(f)
-				if _, mut := mutatingExternal[name]; !mut || len(c.Common().Args) == 0 {
+				if _, mut := mutatingExternal[name]; !mut || len(c.Common().Args) == 0 || isInsertCtor(name) {
 					continue
 				}
 				if u, ok := c.Common().Args[0].(*ssa.UnOp); ok && !lengthOnly {
@@ -813,6 +850,9 @@ func insertRestructuring(ctx *Ctx, r *Result) {
 					continue
 				}
 				target, label, node := e.Args[0].Key(), e.Args[1].Key(), e.Args[2]
+			if len(e.Deref) > 2 && e.Deref[2] != nil {
+				node = e.Deref[2] // the child is handed over by pointer to a local
+			}
 				suf := fieldOf(node, "suf").Key()
 				get := func(f string) *Term { return fieldOf(node, f) }
 				isZero := func(f string) bool { t := get(f); return t.Op == "zero" || t.IsConst("nil") }
@@ -919,6 +959,37 @@ func commonSuffixRule(ctx *Ctx, r *Result) {
 	}
 	A, B := "param:"+fn.Params[0].Name(), "param:"+fn.Params[1].Name()
 	nRet := 0
+	// The position compared in an iteration, E, is read off the back edge: the
+	// atom index(x, E) == index(y, E) that lets the scan continue. E = φ + δ
+	// for the loop variable φ (δ depends on whether φ counts the byte compared
+	// or the start of the suffix found so far).
+	var E *Term
+	var phi string
+	for _, pa := range paths {
+		if pa.Start == "entry" || pa.End == "return" {
+			continue
+		}
+		for _, a := range pa.Atoms[pa.PreAt:] {
+			t := a.T
+			if a.Pos && t.Op == "bin" && t.Name == "==" && t.Args[0].Op == "index" && t.Args[1].Op == "index" &&
+				t.Args[0].Args[1].Key() == t.Args[1].Args[1].Key() {
+				E = t.Args[0].Args[1]
+			}
+		}
+	}
+	if E != nil {
+		E.Mentions(func(t *Term) bool {
+			if t.Op == "loopphi" {
+				phi = t.Key()
+			}
+			return false
+		})
+	}
+	if E == nil || phi == "" || decomposeKey(E.Key()).base != phi {
+		r.undecided("R1.9", "splitAtCommonSuffix", "no back edge conditioned on the equality of two bytes at the same position φ+δ")
+		return
+	}
+	ek := E.Key()
 	for _, pa := range paths {
 		if pa.Start == "entry" {
 			continue
@@ -933,17 +1004,12 @@ func commonSuffixRule(ctx *Ctx, r *Result) {
 		case 0:
 			good, detail = false, "the path does not compare the lengths of the two arguments"
 		}
-		var phi string
-		for _, a := range pa.Atoms[pa.PreAt:] {
-			a.T.Mentions(func(t *Term) bool {
-				if t.Op == "loopphi" {
-					phi = t.Key()
-				}
-				return false
-			})
-		}
 		aligned := "slice(" + long + ", bin:-(len:builtin.len(" + long + "), len:builtin.len(" + short + ")), _, _)"
-		eq := "bin:==(index(" + short + ", " + phi + "), index(" + aligned + ", " + phi + "))"
+		eqVal := pa.Val("bin:==(index(" + short + ", " + ek + "), index(" + aligned + ", " + ek + "))")
+		if eqVal == 0 {
+			eqVal = pa.Val("bin:==(index(" + aligned + ", " + ek + "), index(" + short + ", " + ek + "))")
+		}
+		exhausted := pa.Val("bin:<(" + ek + ", 0)")
 		if pa.End == "return" {
 			nRet++
 			if len(pa.Rets) != 3 {
@@ -964,15 +1030,20 @@ func commonSuffixRule(ctx *Ctx, r *Result) {
 					if !(d1.isConst() && d1.c == 0 && d2.isConst() && d2.c == 0) {
 						good, detail = false, fmt.Sprintf("the numbers of bytes removed from a (%s) and b (%s) and the length of the returned suffix (%s) differ", rem0, rem1, sufLen)
 					}
+					// the suffix starts right after the position at which the scan stopped
+					d3 := z.lin(r2.Args[1]).add(z.lin(E), -1)
+					if !(d3.isConst() && d3.c == 1) {
+						good, detail = false, fmt.Sprintf("the suffix returned does not start right after the position at which the scan stopped (start − stop = %s)", d3)
+					}
 				}
 				// stop only at the first difference or when the shorter argument is exhausted
-				if pa.Val("bin:<("+phi+", 0)") != 1 && pa.Val(eq) != -1 {
+				if exhausted != 1 && eqVal != -1 {
 					good, detail = false, "the scan stops although the bytes compared are equal and bytes remain (the suffix returned is not the longest common one)"
 				}
 			}
 		} else {
 			// back edge: continue only on equal bytes, one position to the left
-			if pa.Val("bin:<("+phi+", 0)") != -1 || pa.Val(eq) != 1 {
+			if exhausted != -1 || eqVal != 1 {
 				good, detail = false, "the scan continues without having compared equal bytes at the same distance from the end"
 			}
 			for name, v := range pa.Next {
@@ -984,6 +1055,7 @@ func commonSuffixRule(ctx *Ctx, r *Result) {
 		r.check(good, "R1.9", desc, "", detail, 1)
 	}
 	// the scan starts at the last byte of the shorter argument
+	delta := decomposeKey(ek).off
 	for _, pa := range paths {
 		if pa.Start != "entry" {
 			continue
@@ -993,12 +1065,16 @@ func commonSuffixRule(ctx *Ctx, r *Result) {
 			short = B
 		}
 		okInit := false
-		for _, v := range pa.Next {
-			if v.Key() == "bin:-(len:builtin.len("+short+"), 1)" {
+		for name, v := range pa.Next {
+			if !strings.HasPrefix(phi, "loopphi:"+name+"@") {
+				continue
+			}
+			d := decomposeKey(v.Key())
+			if d.base == "len:builtin.len("+short+")" && d.off+delta == -1 {
 				okInit = true
 			}
 		}
-		r.check(okInit, "R1.9", "splitAtCommonSuffix: scan starts at the last byte of the shorter argument {"+radixShort(pa)+"}", "", "the scan does not start at len(shorter)-1", 1)
+		r.check(okInit, "R1.9", "splitAtCommonSuffix: scan starts at the last byte of the shorter argument {"+radixShort(pa)+"}", "", "the first position compared is not len(shorter)-1", 1)
 	}
 	if nRet < 4 {
 		r.undecided("R1.9", "splitAtCommonSuffix", fmt.Sprintf("only %d return segments", nRet))
@@ -1104,8 +1180,11 @@ func shapeSorted(v *Term, beforeKey string, searchedField map[string]bool) bool 
 		return true // copy of another node's (sorted) slice
 	case v.Op == "call" && v.Name == "origins.deleteSameSign":
 		return true // sub-slice of a sorted slice
-	case v.Op == "call" && strings.HasPrefix(v.Name, "origins.insert") && len(v.Args) == 3:
+	case v.Op == "call" && isInsertCtor(v.Name) && len(v.Args) == 3:
 		s, i, x := v.Args[0], v.Args[1], v.Args[2]
+		if x.Op == "lit" && len(x.Args) == 1 && !strings.HasPrefix(v.Name, "origins.") {
+			x = x.Args[0] // the variadic tail of slices.Insert: exactly one element
+		}
 		return s.Key() == beforeKey && i.Key() == "call:slices.BinarySearch("+s.Key()+", "+x.Key()+")#0"
 	}
 	return false
